@@ -15,6 +15,7 @@ search:     a failing dump is reduced (line removal) while the same verdict pers
 """
 import hashlib
 import os
+import re
 import shutil
 import subprocess
 import sys
@@ -31,6 +32,20 @@ WORK = os.path.join(vlib.BUILD, "work", PID)
 SETTERS_SHA = None   # filled below
 
 
+# hand-written inputs: constructs whose dumps once carried (or were suspected to carry) bad references
+INLINE_CORPUS = [
+    ("c", "struct S { union { int i; float f; }; int k; };\nint g(struct S *s) { return s->i + s->k; }\n"),
+    ("cpp", "static union { int i; float f; };\nint g(int x) { i = x; return i; }\n"),
+    ("cpp", "struct B { virtual int f(int x) { return x; } };\nstruct D : B { int f(int x) override { int a[3] = {1,2,3}; return a[x] + (x ? 1 : 2); } };\n"
+            "template <class T> T id(T t) { return t; }\ntypedef unsigned long ul;\n"
+            "int main() { D d; ul u = id<ul>(3); auto l = [&](int k) { return k + u; }; return d.f(l(1)); }\n"),
+    ("cpp", "namespace A { namespace B { struct X { struct Y { int z; } y; enum E { e1, e2 } e; }; } }\nint f(A::B::X& x) { return x.y.z + x.e + A::B::X::e2; }\n"),
+    ("c", "typedef struct { int a; struct { int b; } in; } T;\nint f(T *t, int (*cb)(int)) { return cb(t->a) + t->in.b + ((int[]){1,2,3})[1]; }\n"),
+    ("cpp", "template <int N> struct F { enum { v = N * F<N - 1>::v }; };\ntemplate <> struct F<0> { enum { v = 1 }; };\nint x = F<4>::v; int y = (1 < 2) > 0;\n"),
+    ("c", "#define STR(x) #x\nconst char *s = STR(a<b>&\"q\");\nchar c = '\\'';\nchar t[] = \"tab\\there\\x01\";\n"),
+]
+
+
 def model_cmd(model):
     return ["bash", "-c", "ulimit -s unlimited 2>/dev/null || ulimit -s 1000000; exec '%s'" % model]
 
@@ -38,6 +53,9 @@ def model_cmd(model):
 def run_cppcheck_dump(src, extra=(), timeout=300):
     """cppcheck --dump on a private copy; returns (rc, output, dump path or None)."""
     dump = src + ".dump"
+    m = re.match(r"corp\d+_(.*)\.(c|cpp)$", os.path.basename(src))
+    if m and os.path.exists(os.path.join(os.path.dirname(vlib.CPPCHECK), "cfg", m.group(1) + ".cfg")):
+        extra = list(extra) + ["--library=" + m.group(1)]
     if os.path.exists(dump):
         os.remove(dump)
     cmd = [vlib.CPPCHECK, "--dump", "-q", "--inline-suppr"] + list(extra) + [src]
@@ -52,31 +70,48 @@ class Validator:
         self.edges = 0
         self.tokens = 0
         self.configs = 0
+        self.t_model = self.t_reader = self.t_parse = 0.0
 
     def verdicts(self, dump):
-        """-> list of problems [(kind, detail)] for one dump file (empty = fine)."""
-        probs = []
-        ok, det = D.raw_scan(dump)
-        if not ok:
-            probs.append(("rawbyte", det))
-        try:
-            root, docs = D.docs_of_dump(dump)
-        except Exception as e:  # not well-formed
-            return probs + [("xml", "%s: %s" % (type(e).__name__, e))], []
+        return self.verdicts_many([dump])[0]
+
+    def verdicts_many(self, dumps):
+        """-> per dump file (problems [(kind, detail)], infos); one model process for all files."""
+        pre = []
         lines = []
-        for d in docs:
-            lines.append(vlib.enc_case(["check"] + d.fields()))
-            lines.append(vlib.enc_case(["resolve"] + d.fields(True)))
+        t0 = time.time()
+        for dump in dumps:
+            probs = []
+            ok, det = D.raw_scan(dump)
+            if not ok:
+                probs.append(("rawbyte", det))
+            try:
+                root, docs = D.docs_of_dump(dump)
+            except Exception as e:  # not well-formed
+                pre.append((dump, probs + [("xml", "%s: %s" % (type(e).__name__, e))], None, 0))
+                continue
+            pre.append((dump, probs, docs, len(lines)))
+            for d in docs:
+                lines.append(vlib.enc_case(["check"] + d.fields()))
+                lines.append(vlib.enc_case(["resolve"] + d.fields(True)))
+        t1 = time.time()
+        self.t_parse += t1 - t0
         outs = []
         if lines:
-            rc, outs, err = vlib.run_lines(model_cmd(self.model), lines, timeout=1200)
+            rc, outs, err = vlib.run_lines(model_cmd(self.model), lines, timeout=3000)
             if rc != 0 or len(outs) != len(lines):
-                raise vlib.BuildError("model died on %s: rc=%s %s" % (dump, rc, err[-500:]))
+                raise vlib.BuildError("model died: rc=%s lines %d/%d %s" % (rc, len(outs), len(lines), err[-500:]))
+        self.t_model += time.time() - t1
+        return [self.judge(dump, probs, docs, outs[off:]) if docs is not None else (probs, []) for dump, probs, docs, off in pre]
+
+    def judge(self, dump, probs, docs, outs):
+        t2 = time.time()
         reader_cfgs, reader_exc = None, None
         try:
             reader_cfgs = D.reader_view(self.reader, dump)
         except Exception as e:
             reader_exc = "%s: %s" % (type(e).__name__, e)
+        self.t_reader += time.time() - t2
         infos = []
         for k, d in enumerate(docs):
             v = [x.decode("latin-1") for x in vlib.dec_line(outs[2 * k])]
@@ -130,7 +165,9 @@ class Validator:
 
 def signature(kind, detail):
     """stable identity of a problem class (ids/addresses stripped)."""
-    import re
+    m = re.search(r"attribute (\S+) of element", detail)
+    if kind == "model:dangling" and m:
+        return "dangling:" + m.group(1)
     s = re.sub(r"\b[0-9a-f]{6,16}\b", "#", detail)
     s = re.sub(r"position \d+", "position #", s)
     return kind + ":" + hashlib.sha1(s.encode()).hexdigest()[:10]
@@ -171,8 +208,8 @@ def check(run, replay):
     ]
     run.assumptions += ["g++ compiles /repo faithfully", "python3's xml.etree (expat) is a conforming XML parser"]
     run.extra["rule"] = (
-        "ast: pools of 6-10 real tokens, 1-40 calls (45% astOperand1, 45% astOperand2, 10% astTop(tok); 12% nullptr arguments) and "
-        "bottom-up tree building followed by random edits; non-trivial = sequence whose final heap has >=2 edges or that ends in the cyclic-dependency exception, distinct case. "
+        "ast: pools of 6-10 real tokens, 1-40 calls: a third uniform (45% astOperand1, 45% astOperand2, 10% astTop(tok); 12% nullptr arguments), a third "
+        "bottom-up tree building followed by random edits, a third guided by a shadow forest (operand from another tree 97% of the time); non-trivial = sequence whose final heap has >=2 edges or that ends in the cyclic-dependency exception, distinct case. "
         "links: bracket soups over { } ( ) [ ] ; x , < > = 1 (balanced skeleton with 0-2 mutations, or uniform) len 0-30; non-trivial = >=1 pair linked or an unmatched token reported, distinct soup. "
         "dumps: one evaluation = one configuration of one --dump file validated (all id-valued attributes, link symmetry + createLinks equality, AST agreement + acyclicity, reader graph equality); "
         "non-trivial = configuration with >=1 AST edge and >=1 link, distinct (file content, cfg).")
@@ -200,7 +237,7 @@ def check(run, replay):
 
     # ---- X1 AST setters
     n = 6000 if quick else 200000
-    cases = [D.gen_ast_case(rng) for _ in range(n // 2)] + [D.gen_tree_case(rng) for _ in range(n // 2)]
+    cases = [D.gen_ast_case(rng) for _ in range(n // 3)] + [D.gen_tree_case(rng) for _ in range(n // 3)] + [D.gen_guided_case(rng) for _ in range(n // 3)]
 
     def ast_nt(c, m, i):
         if not m or m[0] == b"F":
@@ -263,12 +300,16 @@ def check(run, replay):
     reader = D.load_reader()
     val = Validator(run, model, reader)
     inputs = []   # (stream, name, path, text or None)
-    ngen = 24 if quick else 600
+    ngen = 100 if quick else 1500
     for k in range(ngen):
         lang, text = D.gen_dump_program(rng)
         p = os.path.join(WORK, "gen%04d.%s" % (k, lang))
         open(p, "w").write(text)
         inputs.append(("dump-generated", os.path.basename(p), p, text))
+    for k, (lang, text) in enumerate(INLINE_CORPUS):
+        p = os.path.join(WORK, "inl%03d.%s" % (k, lang))
+        open(p, "w").write(text)
+        inputs.append(("dump-corpus", "inline%d" % k, p, text))
     corpus = []
     cfgdir = os.path.join(vlib.REPO, "test", "cfg")
     for fn in sorted(os.listdir(cfgdir)):
@@ -281,12 +322,12 @@ def check(run, replay):
                 corpus.append(os.path.join(sdir, dn, fn))
     corpus.sort(key=os.path.getsize)
     if quick:
-        corpus = [c for c in corpus if os.path.getsize(c) < 6000][:14] + corpus[len(corpus) // 2:len(corpus) // 2 + 2]
+        corpus = [c for c in corpus if os.path.getsize(c) < 25000]
     for k, src in enumerate(corpus):
         p = os.path.join(WORK, "corp%03d_%s" % (k, os.path.basename(src)))
         shutil.copy(src, p)
         inputs.append(("dump-corpus", os.path.relpath(src, vlib.REPO), p, None))
-    nmut = 16 if quick else 400
+    nmut = 80 if quick else 1500
     small = [c for c in corpus if os.path.getsize(c) < 20000] or corpus
     for k in range(nmut):
         if rng.random() < 0.5 and small:
@@ -301,20 +342,31 @@ def check(run, replay):
         open(p, "w", errors="replace").write(text)
         inputs.append(("dump-mutated", os.path.basename(p), p, text))
 
+    known_keys = {k for k, _ in vlib.load_known(PID)[0]}
     t0 = time.time()
     with ThreadPoolExecutor(max_workers=6 if quick else 8) as ex:
         results = list(ex.map(lambda it: run_cppcheck_dump(it[2]), inputs))
     run.extra["dump_wall_s"] = round(time.time() - t0, 1)
     crashed = 0
     reported = 0
+    verd = {}
+    good = [(it, res) for it, res in zip(inputs, results) if res[2] is not None and not (res[0] < 0 or res[0] in (124, 134, 139))]
+    B = 40
+    for i in range(0, len(good), B):
+        chunk = good[i:i + B]
+        for (it, res), v in zip(chunk, val.verdicts_many([res[2] for it, res in chunk])):
+            verd[it[2]] = v
     for (stream, name, path, text), (rc, out, dump) in zip(inputs, results):
-        if rc < 0 or rc in (124, 134, 139) or dump is None:
+        if rc < 0 or rc in (124, 134, 139) or (dump is None and "error:" not in out):
             crashed += 1
             if rc != 124:
                 run.violation("dumpcrash:" + name, "cppcheck --dump on %s: exit status %s, dump %s" % (name, rc, "missing" if dump is None else "present"),
                               {"input": name, "text": text, "output": out[-1500:]})
             continue
-        probs, infos = val.verdicts(dump)
+        if dump is None:
+            run.count(stream, None, bucket="no-dump(rejected before tokenizing)")
+            continue
+        probs, infos = verd[path]
         rejected = "syntaxError" in out or "unknownMacro" in out or "internalAstError" in out
         for cfg, ntok, nref, nast, nlink in infos:
             run.count(stream, None, nontrivial=(hashlib.sha1(open(path, "rb").read()).hexdigest()[:12], cfg) if nast and nlink else None,
@@ -329,7 +381,9 @@ def check(run, replay):
             rep = {"stream": stream, "input": name, "problem": kind, "detail": detail, "cppcheck_output": out[-800:],
                    "how": "cppcheck --dump <input>; python3 tools/props/c14.py --replay <dump>  (or python3 -c 'import cppcheckdata; cppcheckdata.parsedump(...)')"}
             src_text = text if text is not None else open(path, errors="replace").read()
-            if len(src_text) < 30000:
+            if sig in known_keys:
+                rep["input_text"] = src_text[:4000]
+            elif len(src_text) < 30000:
                 def still(t, kind=kind, ext=os.path.splitext(path)[1]):
                     q = os.path.join(WORK, "red" + ext)
                     open(q, "w").write(t)
@@ -358,6 +412,7 @@ def check(run, replay):
     run.extra["dump_id_attributes_checked"] = val.refs
     run.extra["reader_edges_compared"] = val.edges
     run.extra["dump_timeouts_or_crashes"] = crashed
+    run.extra["validator_wall_s"] = {"reshape": round(val.t_parse, 1), "model": round(val.t_model, 1), "reader": round(val.t_reader, 1)}
     if len(run.samples) < 12:
         run.samples.append({"stream": "dump", "files": len(inputs), "configurations": val.configs, "id_attributes": val.refs})
     shutil.rmtree(WORK, ignore_errors=True)
